@@ -134,7 +134,7 @@ static int step(int e)
     } else
     if (EVDLC[e] != 8) { w_rx(&Node, SDO_RX[EVSRV[e]], EVDLC[e], EV[e]); SM[EVSRV[e]].st = S_UNSPEC; mc_steps++; }
     else sdo_request(EVSRV[e], EV[e]);
-    (void)CONodeGetErr(&Node);
+    if (!mc_opt("nopoll", 0)) (void)CONodeGetErr(&Node);      /* nopoll=1: the application never reads the node error (it is sticky): no server may take it for the state of a transfer */
     sdo_content_reset();
     return MC_OK;
 }
